@@ -16,7 +16,7 @@ VIEW_METHODS = {"reshape", "transpose", "view", "ravel", "squeeze", "swapaxes"}
 VIEW_FUNCS = {"asarray", "asanyarray", "ascontiguousarray", "atleast_1d", "atleast_2d", "squeeze", "ravel", "reshape", "transpose"}
 MUTATORS = {"append", "extend", "insert", "pop", "remove", "sort", "reverse", "clear", "update", "setdefault", "popitem",
             "fill", "put", "resize", "itemset", "partition", "setflags", "add", "discard",
-            "measure_all", "measure", "barrier", "reset", "add_register", "h", "s", "sdg", "x", "y", "z", "cx", "cz", "swap", "cy"}
+            "measure_all", "measure", "barrier", "reset", "add_register", "remove_final_measurements", "add_bits", "h", "s", "sdg", "x", "y", "z", "cx", "cz", "swap", "cy"}
 LIST_ONLY_AMBIGUOUS = {"add", "x", "y", "z", "h", "s"}   # names too short to trust on untyped receivers
 PROTECTED_ANN = ("Stabilizer", "Graph", "QuantumCircuit", "ndarray", "Sequence", "List", "Dict", "Result", "Collection", "Tuple[np", "Union")
 
@@ -530,6 +530,7 @@ def shared_mutables(r, v, depth=0, path="result", seen=None):
 def A3_A5_shared(rep, flow: Flow, entry_fqs):
     rep.rule("A3", "no value returned by a public function contains a mutable object (list, dict, circuit) that is shared with a cache, a module/class-level binding or a default argument: returned structures are immutable scalars or fresh copies to the depth of their mutable structure", floor=5)
     rep.rule("A5", "the library applies its own mutating operations (gate appends, compose(inplace), container mutators, in-place operators) only to objects allocated in the current call; caches are written only by their loader idiom", floor=2)
+    rep.rule("A4i", "along every interpreted path of a public entry point no mutating operation (gate append, compose in place, measure_all, remove_final_measurements, metadata / attribute / item store) reaches a heap object that was passed in by the caller", floor=0)
     rep.rule("A2", "cache keys are complete: every parameter the cached value depends on occurs in the key, whose variable parts are separated by literals", floor=2)
     for fq in entry_fqs:
         f = flow.prog.func(fq)
@@ -543,6 +544,11 @@ def A3_A5_shared(rep, flow: Flow, entry_fqs):
                 rep.finding("A3", f"{fq}:{path}:{o.origin[1]}", f"{f.module.rel} {f.qualname} return path #{pi}: `{path}` is a {o.kind} shared with {o.origin[1]} (allocated at {o.site}); a caller mutating it changes what later calls return")
             for ef in r.effects:
                 _, oid, origin, kind, op, where, stmt, ffq = ef
+                if origin[0] == "param" and "A4i" in rep.rules and not (f.cls is not None and f.params and origin[1] == f.params[0]):
+                    if origin[1] == "circuit" and f.name.startswith("rotate_stabilizer_into_state"):
+                        continue      # documented inplace opt-in of the sign repair itself
+                    rep.finding("A4i", f"{fq}:{origin[1]}:{stmt}", f"{where}: `{op}` is applied to an object passed in by the caller (parameter `{origin[1]}` of {f.qualname}) [{stmt}]")
+                    bad = True
                 if origin[0] != "shared":
                     continue
                 if kind == "dict" and op in ("setitem", "setdefault"):
@@ -576,6 +582,7 @@ def A3_A5_shared(rep, flow: Flow, entry_fqs):
         if not bad:
             rep.ok("A3", len(rets), nontrivial=fq, sample=f"{fq}: {len(rets)} return path(s), no shared mutable reachable from the result")
             rep.ok("A5", 1, nontrivial=fq)
+            rep.ok("A4i", 1, nontrivial=fq)
 
 
 def _leaves(k, tag, out=None):
